@@ -330,8 +330,10 @@ def gen_case(r, tier):
                 ops.append({"op": "warmup", "n": r.randint(2, 25)})
             elif x < 0.83:
                 ops.append({"op": "state_roundtrip"})
-            elif x < 0.92:
+            elif x < 0.90:
                 ops.append({"op": "reload"})
+            elif x < 0.95:
+                ops.append({"op": "retarget"})
             else:
                 ops.append({"op": "reinitialize"})
         if not any(o["op"] in ("sample", "warmup") for o in ops):
@@ -461,6 +463,10 @@ class MHRun:
                 with core.setup_stream(self.setup_seed):
                     s.reinitialize()
                 o.history = "after_reinitialize"
+            elif k == "retarget":
+                s.target = s.target          # public target setter on an initialised sampler
+                o.history = "after_retarget"
+                ctx.fault("retarget")
             o.check_cache(s.current_point, self._cached(s), "after_" + k)
 
     # ------------------------------------------------------------------ legacy
